@@ -1,9 +1,16 @@
 #!/bin/bash
 # Re-run, for every kept seeded change, the checks that are supposed to catch it (from meta.json) and record the result.
+# usage: tools/seedmatrix.sh            all seeds, MATRIX.md rewritten
+#        tools/seedmatrix.sh <id>...    only these seeds, their rows replaced/appended
 cd /verif
-echo "| seed | property | check | result |" > seeded/MATRIX.md; echo "|---|---|---|---|" >> seeded/MATRIX.md
-for d in seeded/*/; do
-  sid=$(basename $d); [ -f $d/meta.json ] || continue
+if [ $# -eq 0 ]; then
+  echo "| seed | property | check | result |" > seeded/MATRIX.md; echo "|---|---|---|---|" >> seeded/MATRIX.md
+  set -- $(ls seeded | grep -v MATRIX)
+else
+  for sid in "$@"; do sed -i "/^| $sid |/d" seeded/MATRIX.md; done
+fi
+for sid in "$@"; do d=seeded/$sid/
+  [ -f $d/meta.json ] || continue
   ids=$(python3 -c "import json;print(' '.join(json.load(open('$d/meta.json'))['caught_by']))")
   prop=$(python3 -c "import json;print(json.load(open('$d/meta.json'))['property'])")
   SKIP_TESTS=1 MUT_LINES=3 ./tools/mut.sh /verif/$d/patch.diff "$ids" 2>&1 | cut -c1-330 > $d/check_output.txt
@@ -13,4 +20,5 @@ for d in seeded/*/; do
     echo "| $sid | $prop | $i | $r |" >> seeded/MATRIX.md
   done
 done
+{ head -2 seeded/MATRIX.md; tail -n +3 seeded/MATRIX.md | sort; } > seeded/MATRIX.md.tmp && mv seeded/MATRIX.md.tmp seeded/MATRIX.md
 cat seeded/MATRIX.md
